@@ -147,7 +147,7 @@ def impl_env(bdir, threads=None):
     return env
 
 
-def run_impl(bdir, prop, cases, mode='C', threads=None, timeout=1500, pyflags=()):
+def run_impl(bdir, prop, cases, mode='C', threads=None, timeout=1500, pyflags=(), extra_env=None):
     """Run `cases` through harness/props/<prop>.py:run_impl in a subprocess bound
     to the scratch build. Returns a list of results (one per case). A native
     crash or timeout of the subprocess is recorded for the case that was running
@@ -166,9 +166,12 @@ def run_impl(bdir, prop, cases, mode='C', threads=None, timeout=1500, pyflags=()
         open(jout, 'w').close()
         cmd = [PY] + list(pyflags) + [os.path.join(VERIF, 'harness', 'impl_worker.py'), jin, jout]
         try:
-            r = subprocess.run(cmd, env=impl_env(bdir, threads), stdout=subprocess.PIPE,
+            env = impl_env(bdir, threads)
+            if extra_env:
+                env.update(extra_env)
+            r = subprocess.run(cmd, env=env, stdout=subprocess.PIPE,
                                stderr=subprocess.PIPE, text=True, timeout=timeout)
-            rc, err = r.returncode, r.stderr[-2000:]
+            rc, err = r.returncode, r.stderr[-6000:]
         except subprocess.TimeoutExpired:
             rc, err = -999, 'timeout'
         n = 0
@@ -401,3 +404,33 @@ def write_evidence(pid, tier, seed, coverage, wall, violations, assumptions):
 
 def rng_for(seed, pid):
     return random.Random('%s/%s' % (seed, pid))
+
+
+def ensure_asan_build():
+    """scratch build whose libfqe.so (the C kernels) is compiled with ASan + UBSan and asserts on;
+    the Cython wrapper module is the normal one. Returns (dir, env additions)."""
+    base = ensure_build()
+    key = os.path.basename(base) + '-asan'
+    bdir = os.path.join(CACHE, 'build', key)
+    ok = os.path.join(bdir, '.built_ok')
+    if not os.path.exists(ok):
+        if os.path.exists(bdir):
+            shutil.rmtree(bdir)
+        shutil.copytree(base, bdir, symlinks=True)
+        os.unlink(os.path.join(bdir, '.built_ok'))
+        lib = os.path.join(bdir, 'src', 'fqe', 'lib')
+        cfiles = ['macros.c', 'mylapack.c', 'fci_graph.c', 'fqe_data.c', 'cirq_utils.c', 'wick.c', 'bitstring.c', 'binom.c']
+        cmd = ['gcc', '-O1', '-g', '-fopenmp', '-shared', '-fPIC', '-UNDEBUG', '-fno-omit-frame-pointer',
+               '-fsanitize=address,undefined', '-fno-sanitize-recover=undefined', '-DFQE_VERIF_TRACE', '-I', lib] + \
+              [os.path.join(lib, c) for c in cfiles] + ['-o', os.path.join(lib, 'libfqe.so'), '-lm']
+        r = subprocess.run(cmd, stdout=subprocess.PIPE, stderr=subprocess.STDOUT, text=True)
+        if r.returncode != 0:
+            raise BuildError('sanitizer build of libfqe.so failed:\n' + r.stdout[-3000:])
+        open(ok, 'w').write('asan')
+        _prune_builds(keep=key, maxn=4)
+    def libpath(name):
+        return subprocess.check_output(['gcc', '-print-file-name=' + name], text=True).strip()
+    env = {'LD_PRELOAD': libpath('libasan.so') + ':' + libpath('libubsan.so'),
+           'ASAN_OPTIONS': 'detect_leaks=0:abort_on_error=0:halt_on_error=1:exitcode=66',
+           'UBSAN_OPTIONS': 'halt_on_error=1:print_stacktrace=1:exitcode=67'}
+    return bdir, env
